@@ -274,6 +274,41 @@ def _newkeys_sets(f):
     return bool(top) and not _calls(f, "self.clear_to_send.clear")
 
 
+def _flag_region(f, what):
+    """The try-body guarded by clear_to_send_lock that contains clear_to_send.<what>() -> (first, last line)."""
+    for i, st in enumerate(f.body):
+        if isinstance(st, ast.Try) and _calls(st, "self.clear_to_send." + what) and i > 0:
+            prev = f.body[i - 1]
+            if (isinstance(prev, ast.Expr) and isinstance(prev.value, ast.Call)
+                    and ast.unparse(prev.value.func) == "self.clear_to_send_lock.acquire"
+                    and any(isinstance(c, ast.Call) and ast.unparse(c.func) == "self.clear_to_send_lock.release"
+                            for x in st.finalbody for c in ast.walk(x))):
+                return st.body[0].lineno, st.body[-1].end_lineno, st.end_lineno
+        if isinstance(st, ast.With) and any(ast.unparse(it.context_expr) == "self.clear_to_send_lock" for it in st.items) \
+                and _calls(st, "self.clear_to_send." + what):
+            return st.body[0].lineno, st.body[-1].end_lineno, st.end_lineno
+    return None
+
+
+def _in_kex_writes(f):
+    return [n.lineno for n in ast.walk(f) if isinstance(n, ast.Assign)
+            and any(ast.unparse(t) == "self.in_kex" for t in n.targets)]
+
+
+def _nk_atomic(idx):
+    """_parse_newkeys: in_kex is written and clear_to_send set inside ONE clear_to_send_lock section and
+    completion_event is signalled only after it; _send_kex_init: clear() and in_kex = True in one section."""
+    nk, ki = idx[("Transport", "_parse_newkeys")], idx[("Transport", "_send_kex_init")]
+    r1, r2 = _flag_region(nk, "set"), _flag_region(ki, "clear")
+    if r1 is None or r2 is None:
+        return False
+    w1, w2 = _in_kex_writes(nk), _in_kex_writes(ki)
+    sig = [c.lineno for c in _calls(nk, "self.completion_event.set")]
+    return (bool(w1) and all(r1[0] <= ln <= r1[1] for ln in w1)
+            and bool(w2) and all(r2[0] <= ln <= r2[1] for ln in w2)
+            and all(ln > r1[2] for ln in sig))
+
+
 def _flag_set_sites(repo):
     sites = set()
     for path in sorted(glob.glob(os.path.join(repo, "paramiko", "*.py"))):
@@ -447,6 +482,7 @@ def tables(repo):
         "negotiate_clears_first": _clears_first(idx[("Transport", "_negotiate_keys")],
                                                 ["self._send_kex_init", "self._parse_kex_init"]),
         "newkeys_sets": _newkeys_sets(idx[("Transport", "_parse_newkeys")]),
+        "nk_atomic": _nk_atomic(idx),
         "flag_set_only_in_newkeys": _flag_set_sites(repo) == {("transport.py", "_parse_newkeys")},
         "public_ungated": _public_ungated(w),
         "kex_gate_uses": _kex_gate_uses(repo),
@@ -484,6 +520,8 @@ def generate(repo):
     out.append("Definition keepalive_disc : disc := %s." % t["keepalive"]["disc"])
     out.append("Definition keepalive_types : list Z := [%s]." % "; ".join(map(str, t["keepalive"]["types"])))
     f = t["facts"]
+    out.append("(* _parse_newkeys releases the gate atomically and signals completion_event afterwards (see Model/C11.v) *)")
+    out.append("Definition nk_atomic : bool := %s." % _b(f["nk_atomic"]))
     for k in ("gate_waits", "kexinit_clears_first", "negotiate_clears_first", "newkeys_sets",
               "flag_set_only_in_newkeys", "send_message_is_packetizer"):
         out.append("Definition %s : bool := %s." % (k, _b(f[k])))
